@@ -12,7 +12,8 @@ EXTENDS Integers, Sequences, FiniteSets, TLC, Json
 
 CONSTANTS MaxArgs, Emit
 
-Callees == {"rec1", "rec2", "rec3", "recv1", "recv0", "vm2", "pm2", "jf", "sw", "nilv"}
+\* jp2: a jet.Func that takes exactly two arguments, read with Arguments.ParseInto (which reports a surplus argument)
+Callees == {"rec1", "rec2", "rec3", "recv1", "recv0", "vm2", "pm2", "jf", "jp2", "sw", "nilv"}
 \* nilv is not a call: a first stage that evaluates to no value (a nil global).  A reflected Go function refuses an
 \* invalid piped argument; a jet.Func receives it as an argument like any other (Arguments.IsSet says it is not set)
 Inv == "<invalid Value>"
@@ -21,7 +22,7 @@ IsNoValue(c) == c = "nilv"
 \* is not a recorded call, and may only be the last stage
 IsWriter(c) == c = "sw"
 Arity(c)    == CASE c = "rec1" -> 1 [] c = "rec2" -> 2 [] c = "rec3" -> 3 [] c = "recv1" -> 1 [] c = "recv0" -> 0
-                 [] c = "vm2" -> 2 [] c = "pm2" -> 2 [] c = "jf" -> 0 [] c = "sw" -> 0 [] c = "nilv" -> 0
+                 [] c = "vm2" -> 2 [] c = "pm2" -> 2 [] c = "jp2" -> 2 [] c = "jf" -> 0 [] c = "sw" -> 0 [] c = "nilv" -> 0
 Variadic(c) == c \in {"recv1", "recv0", "jf", "sw"}          \* a jet.Func accepts any number of arguments
 Shapes == {"plain", "colon", "pipe", "pipecolon", "pipeparen", "slot", "slot2"}
 
@@ -51,7 +52,7 @@ ValidStage(first, c, shape, n, slot, nest) ==
   /\ n \in 0..MaxArgs
   \* a jet.Func is handed its argument EXPRESSIONS (Arguments.Get evaluates on demand, every time it is asked): how
   \* often a nested call runs is up to the callee, so the contract only speaks about nested calls under the other kinds
-  /\ (c = "jf" => nest = 0)
+  /\ (c \in {"jf", "jp2"} => nest = 0)
   /\ nest \in 0..n /\ (nest # 0 => nest # slot) /\ (shape = "slot2" /\ nest # 0 => nest # (slot % n) + 1)
   /\ (first => shape \in {"plain", "colon"})            \* nothing is piped into the first stage
   /\ (~first => shape \in {"pipe", "pipecolon", "pipeparen", "slot", "slot2"})
@@ -168,6 +169,10 @@ Builtins == <<
   [name |-> "len",       go |-> "len",               args |-> <<"\"héllo\"">>],
   [name |-> "len",       go |-> "len",               args |-> <<"lensl">>],
   [name |-> "len",       go |-> "len",               args |-> <<"lenmap">>],
+  [name |-> "len",       go |-> "len",               args |-> <<"lennilsl">>],      \* nil collections have length 0, also
+  [name |-> "len",       go |-> "len",               args |-> <<"lenpnilsl">>],     \* behind a pointer
+  [name |-> "len",       go |-> "len",               args |-> <<"lenpnilmap">>],
+  [name |-> "len",       go |-> "len",               args |-> <<"lenparr">>],       \* a pointer to an array
   [name |-> "ints",      go |-> "range",             args |-> <<"2", "5">>],
   [name |-> "map",       go |-> "mapliteral",        args |-> <<"\"k1\"", "\"v1\"", "\"k2\"", "iv7">>],
   [name |-> "map",       go |-> "mapliteral-intkey", args |-> <<"iv7", "\"v\"">>],
